@@ -284,6 +284,52 @@ func runC05(c *Ctx) {
 		c.CheckRets(which, "C05/recv-v2/failure", rr, c.HasAtom(which, pktMacros, "fail(call:$chanK2.recvPacket)"), 1, pktMacros,
 			Req{Name: "no-commit-no-callback", None: []string{"call:dyn(extract:1($CC(_)))", "call:" + seamRecvV2}})
 	}
+	// ---- v2 over a channel alias: which light client and counterparty the alias names.
+	// The alias of a v1 channel must be the client of that channel's own connection
+	// end, and its v2 counterparty the counterparty channel id under the
+	// connection's counterparty prefix.
+	for _, w := range []string{"core/04-channel/keeper.Keeper.WriteOpenAckChannel", "core/04-channel/keeper.Keeper.WriteOpenConfirmChannel"} {
+		rr := c.Run(which, w)
+		if rr == nil {
+			continue
+		}
+		ch := "extract:0(call:$chanK.GetChannel(_, _, param#2, param#3))"
+		c.Check(which, "C05/alias/client", c.Calls(rr, "$chanK2.SetClientForAlias"), 1, nil, nil,
+			Req{Name: "alias-is-own-connection-client", Args: map[int]string{2: "param#3", 3: "field:ClientId(" + connOf(ch) + ")"}})
+		c.Check(which, "C05/alias/counterparty", c.Calls(rr, "core/02-client/v2/keeper.Keeper.SetClientCounterparty"), 1, nil, nil,
+			Req{Name: "counterparty-derived-from-this-channel", Args: map[int]string{2: "param#3",
+				3: "extract:0(call:$chanK.GetV2Counterparty(_, _, param#2, param#3))"},
+				Any: all("eq(field:Ordering("+ch+"), $chanT.UNORDERED)")})
+	}
+	if rr := c.Run(which, "core/04-channel/keeper.Keeper.GetV2Counterparty"); rr != nil {
+		ch := "extract:0(call:$chanK.GetChannel(_, _, param#2, param#3))"
+		want := c.pats(which, nil, "~and(~wf(ClientId, field:ChannelId(field:Counterparty("+ch+"))), ~in(field:KeyPrefix(field:Prefix(field:Counterparty("+connOf(ch)+")))))")[0]
+		n := 0
+		for _, r := range rr.Rets {
+			if len(r.Results) != 2 || e.T.Op(r.Results[1]) != "true" {
+				continue
+			}
+			n++
+			if e.T.Match(want, r.Results[0], term.Env{}, func(term.Env) bool { return true }) {
+				c.ok("C05/alias/v2-counterparty", "core/04-channel/keeper.Keeper.GetV2Counterparty", "", "counterparty = counterparty channel id under the connection's counterparty prefix")
+			} else {
+				c.bad("C05/alias/v2-counterparty", "core/04-channel/keeper.Keeper.GetV2Counterparty", "", "v2 counterparty of an aliased channel is "+clip(e.T.String(r.Results[0]), 300))
+			}
+		}
+		if n == 0 {
+			c.bad("C05/alias/v2-counterparty", "core/04-channel/keeper.Keeper.GetV2Counterparty", "", "no successful return class found")
+		}
+		c.CheckRets(which, "C05/alias/v2-counterparty", rr, func(r *interp.Ret) bool { return len(r.Results) == 2 && e.T.Op(r.Results[1]) == "true" }, 1, nil,
+			Req{Name: "only-open-unordered-channels", Any: all("eq(field:State("+ch+"), $chanT.OPEN)", "ne(field:Ordering("+ch+"), $chanT.ORDERED)")})
+	}
+	c.CallerTable(which, "C05/alias/callers", []CallerRule{
+		{Callee: "core/04-channel/v2/keeper.Keeper.SetClientForAlias", Allowed: []string{"core/04-channel/keeper.Keeper.WriteOpenAckChannel",
+			"core/04-channel/keeper.Keeper.WriteOpenConfirmChannel", "core/04-channel/migrations/v11.MigrateStore"}, Min: 3},
+	})
+	c.WriterTable(which, "C05/alias/writers", []FamilyRule{
+		{Family: "{s}alias", Ops: "set", Allowed: []string{"core/04-channel/v2/keeper.Keeper.SetClientForAlias"}, Min: 1},
+		{Family: "{s}alias", Ops: "delete", Min: 0},
+	})
 }
 
 // ---------------------------------------------------------------- C06
@@ -412,7 +458,10 @@ func runC08(c *Ctx) {
 	// one key family for the counter: both keepers write layout nextSequenceSend//{s}
 	c.WriterTable(which, "C08/writers", []FamilyRule{
 		{Family: "nextSequenceSend//", Ops: "set", Allowed: []string{"core/04-channel/keeper.Keeper.SetNextSequenceSend", "core/04-channel/v2/keeper.Keeper.SetNextSequenceSend"}, Min: 2},
-		{Family: "nextSequenceSend/", Ops: "delete", Min: 0},
+		{Family: "nextSequenceSend//", Ops: "delete", Min: 0},
+		// the legacy v1 key (nextSequenceSend/ports/..) is removed only by the v11 store migration
+		{Family: "nextSequenceSend/ports/", Ops: "delete", Allowed: []string{"core/04-channel/migrations/v11.MigrateStore"}, Min: 0},
+		{Family: "nextSequenceSend/ports/", Ops: "set", Min: 0},
 	})
 	c.CallerTable(which, "C08/callers", []CallerRule{
 		{Callee: "core/04-channel/keeper.Keeper.SetNextSequenceSend", Allowed: []string{"core/04-channel/keeper.Keeper.SendPacket", "core/04-channel.InitGenesis",
